@@ -22,13 +22,13 @@ CHECKS = {
     "C02": ("exploration", "seq", "runtime monitor: post-condition on hex_digests / get_hex_digest against hashlib over long histories on one store instance, and over overlapping calls on one instance (scheduler-controlled statement-level schedules + free-running threads); plus post-condition / invariant monitors wrapped round the public methods while the repository's own test suite runs (another author's inputs)",
             "Every store_object / get_hex_digest result of 20-60 call histories on ONE long-lived instance is checked: key set == five defaults + the algorithms named in that call; values == hashlib; all 12 algorithms under every accepted spelling. History dependence is only reachable by running histories, hence exploration.",
             "4/C02", SEQ_NOTE),
-    "C03": ("exploration", "seq", "runtime monitor: before/after directory abstraction around every re-bind attempt in bounded-exhaustive and random call sequences; linearizability oracle over scheduler-controlled triples with two binders of one pid",
+    "C03": ("exploration", "seq", "runtime monitor: before/after directory abstraction around every re-bind attempt in bounded-exhaustive and random call sequences; linearizability oracle over scheduler-controlled triples with two binders of one pid; plus post-condition / invariant monitors wrapped round the public methods while the repository's own test suite runs (another author's inputs)",
             "All sequences up to length 3/4 over a 20-op menu that contain a store/tag on an already bound pid, plus random sequences with all data kinds and validation arguments; each attempt must raise an already-exists error and leave the abstraction unchanged (except a new unreferenced object).",
             "4/C03", SEQ_NOTE),
-    "C04": ("exploration", "seq", "runtime monitor: retrieve every bound pid byte-for-byte after every call over all delete orders of sharing pids with interleaved hostile calls; invariant at a hook (no object unlinked while its cid list is non-empty) under scheduler-controlled interleavings",
+    "C04": ("exploration", "seq", "runtime monitor: retrieve every bound pid byte-for-byte after every call over all delete orders of sharing pids with interleaved hostile calls; invariant at a hook (no object unlinked while its cid list is non-empty) under scheduler-controlled interleavings; plus post-condition / invariant monitors wrapped round the public methods while the repository's own test suite runs (another author's inputs)",
             "k=2..4 prefix-related pids share one object; every delete order x noise call (wrong-data delete_if_invalid, rejected stores, metadata) is run and every still-bound pid is retrieved after each call; last delete must remove the object.",
             "4/C04", SEQ_NOTE),
-    "C06": ("exploration", "seq", "runtime monitor: independent verdict oracle (hashlib + len) over the full product of content x algorithm x spelling x checksum case x size x prior state x entry point",
+    "C06": ("exploration", "seq", "runtime monitor: independent verdict oracle (hashlib + len) over the full product of content x algorithm x spelling x checksum case x size x prior state x entry point; plus post-condition / invariant monitors wrapped round the public methods while the repository's own test suite runs (another author's inputs)",
             "The verdict and its consequences (exception class, binding, residue, object presence) are compared with an independent oracle on the full product (thorough) or a stratified sample (quick) of the input space the statement quantifies over.",
             "4/C06", SEQ_NOTE),
     "C11": ("exploration", "seq", "runtime monitor: metadata tree abstraction compared with a (pid, format)-keyed model after every call; plus post-condition / invariant monitors wrapped round the public methods while the repository's own test suite runs (another author's inputs)",
